@@ -365,6 +365,9 @@ def model_text(history, run, variant):
 def compare_with_model(rep, hid, history, run, variant, vals):
     text, steps_idx, created = vals['meta']
     model = vals['model']
+    # a command that ended in an error leaves loader threads behind which may still re-cache (verified) objects at
+    # any later time; from then on the entry states of that cache directory are not schedule independent
+    unsettled = set()
     for entry, i in zip(model, steps_idx):
         if i is None:
             continue
@@ -384,7 +387,10 @@ def compare_with_model(rep, hid, history, run, variant, vals):
                 mod_rows.append((_label_of_term(t), bool(readable)))
             if impl_rows != sorted((f'S{l}', r) for l, r in mod_rows):
                 what = f'visible snapshots: model {sorted(mod_rows)}, implementation {impl_rows}'
-        if what is None and obs['cls'] == 'Ok' and variant != 'none':
+        slot = 0 if variant == 'shared' else op['client']
+        if obs['cls'] != 'Ok':
+            unsettled.add(slot)
+        if what is None and obs['cls'] == 'Ok' and variant != 'none' and slot not in unsettled:
             impl_states = [st['extra']['cache_after'].get(str(l), 0) for l in created]
             # labels not yet created are absent in both; entries of snapshots that no longer exist are inert
             # (never looked at), so their state is not an observable
